@@ -35,8 +35,8 @@ class Ctx:
                 self.chk.violation(tag, what, replay, **kw)
 
 
-def new_array(ctx, rng, nd=3, np_=2, ncontent=2, hashsize=None, pending=False, populate=True):
-    a = Array(ctx.binary, nd=nd, np_=np_, ncontent=ncontent, shim=ctx.shim, hashsize=hashsize)
+def new_array(ctx, rng, nd=3, np_=2, ncontent=2, hashsize=None, pending=False, populate=True, splits=1):
+    a = Array(ctx.binary, nd=nd, np_=np_, ncontent=ncontent, shim=ctx.shim, hashsize=hashsize, splits=splits)
     if populate:
         L.populate(a, rng)
     r = a.run('sync')
@@ -102,7 +102,7 @@ def run_case(ctx, a, paths, cmd, opts, expect, desc, replay, model_cmd=None, aft
         if writes:
             bad.append('state-changing calls beyond lock/log: %s' % sorted(writes))
         if bad:
-            ctx.viol('refusal', 'INTERLOCK NOT HONOURED (%s): `%s %s` %s' % (desc, cmd, ' '.join(opts), '; '.join(bad)), rep)
+            ctx.viol('refusal', 'INTERLOCK NOT HONOURED (%s): `%s %s` %s' % (desc, cmd, ' '.join(opts), '; '.join(bad)), rep, finding_key=finding_key)
     elif expect == 'proceed':
         ctx.proceeds += 1
         if failing:
@@ -283,13 +283,14 @@ def trig_parity(a, rng, lvl, variant, used):
     raise KeyError(variant)
 
 
-def scenario_sync_trigger(ctx, seed, kind, where, variant, pending, shape):
+def scenario_sync_trigger(ctx, seed, kind, where, variant, pending, shape, fmt=None):
+    """fmt: None (version-2 content, no recorded parity sizes) | 'hashsize8' | 'split2' (version-3 content: 'Q' records)"""
     rng = random.Random(seed)
     nd, np_, nc = shape
-    a = new_array(ctx, rng, nd=nd, np_=np_, ncontent=nc)
+    a = new_array(ctx, rng, nd=nd, np_=np_, ncontent=nc, hashsize=8 if fmt == 'hashsize8' else None, splits=2 if fmt == 'split2' else 1)
     paths = L.Paths(a)
-    desc = '%s:%s@%d%s nd=%d np=%d nc=%d' % (kind, variant, where, '+pending' if pending else '', nd, np_, nc)
-    replay = {'seed': seed, 'kind': kind, 'where': where, 'variant': variant, 'pending': pending, 'shape': shape}
+    desc = '%s:%s@%d%s nd=%d np=%d nc=%d%s' % (kind, variant, where, '+pending' if pending else '', nd, np_, nc, ' ' + fmt if fmt else '')
+    replay = {'seed': seed, 'kind': kind, 'where': where, 'variant': variant, 'pending': pending, 'shape': shape, 'content_format': fmt}
     try:
         if pending:
             add_pending(a, rng)
@@ -306,8 +307,14 @@ def scenario_sync_trigger(ctx, seed, kind, where, variant, pending, shape):
         # a wrong override must not help
         wrong = {'empty': ['--force-zero'], 'zero': ['--force-empty'], 'parity': ['--force-empty', '--force-zero']}[kind]
         if fires:
-            o = run_case(ctx, a, paths, 'sync', [], 'refuse', desc, replay)
+            # with recorded split sizes (version-3 content) parity_size() reports the recorded size, not the file's
+            fk0 = 'F-C14-short-parity-undetected-with-recorded-sizes' if (kind == 'parity' and fmt) else None
+            o = run_case(ctx, a, paths, 'sync', [], 'refuse', desc, replay, finding_key=fk0)
             cross_check_scan(ctx, o, desc)
+            if fk0 and o.rc == 0:
+                r2 = a.run('check')
+                ctx.notes.add('short parity with recorded split sizes (%s): sync exit 0, parity file re-grown, following check exit %d' % (fmt, r2.rc))
+                return
             run_case(ctx, a, paths, 'sync', wrong, 'refuse', desc + ' wrong-override', replay)
             if kind != 'parity' and (ctx.tier == 'thorough' or seed % 3 == 0):
                 # diff only warns
@@ -400,10 +407,10 @@ def scenario_lock_held(ctx, seed, shape):
     a = new_array(ctx, rng, nd=nd, np_=np_, ncontent=nc)
     paths = L.Paths(a)
     replay = {'seed': seed, 'kind': 'lock_held', 'shape': shape}
+    holder = None
     try:
         add_pending(a, rng)
-        fd = os.open(a.content_files[0] + '.lock', os.O_CREAT | os.O_TRUNC | os.O_WRONLY, 0o600)
-        fcntl.flock(fd, fcntl.LOCK_EX | fcntl.LOCK_NB)
+        holder = L.hold_lock(a)
         cmds = LOCK_CMDS if ctx.tier == 'thorough' else ['sync'] + [LOCK_CMDS[1 + (seed + k) % (len(LOCK_CMDS) - 1)] for k in range(3)]
         for c in cmds:
             o = run_case(ctx, a, paths, c, [], 'refuse', 'lock:held by another process ' + c, replay)
@@ -413,9 +420,12 @@ def scenario_lock_held(ctx, seed, shape):
         o = run_case(ctx, a, paths, 'devices', [], None, 'lock:devices ignores the lock', replay)
         # --test-skip-lock is the (test-only) override
         run_case(ctx, a, paths, 'status', ['--test-skip-lock'], 'proceed', 'lock:--test-skip-lock', replay)
-        os.close(fd)
+        L.release_lock(holder)
+        holder = None
         run_case(ctx, a, paths, 'sync', [], 'proceed', 'lock:released', replay)
     finally:
+        if holder is not None:
+            holder.kill()
         shutil.rmtree(a.root, ignore_errors=True)
 
 
@@ -605,6 +615,13 @@ def main(tier, replay=None):
             for pending in ([False, True] if thorough or variant == 'one_block_short' else [bool(k % 2)]):
                 jobs.append((scenario_sync_trigger, (rng.getrandbits(30), 'parity', where, variant, pending, sh)))
         k += 1
+    # (c') short parity with a version-3 content file (recorded split sizes)
+    for fmt in ['hashsize8', 'split2']:
+        for variant in (['one_block_short', 'truncate_zero'] if not thorough else ['delete', 'truncate_zero', 'one_block_short', 'exact']):
+            sh = shape(k)
+            for where in (range(sh[1]) if thorough else [rng.randrange(sh[1])]):
+                jobs.append((scenario_sync_trigger, (rng.getrandbits(30), 'parity', where, variant, bool(k % 2), sh, fmt)))
+            k += 1
     # (d) (e) configuration
     for kind in ['blocksize', 'hashsize_recorded', 'hashsize_default', 'disk_removed', 'disk_renamed']:
         sh = shape(k)
@@ -615,7 +632,7 @@ def main(tier, replay=None):
     # (f) lock
     for i in range(2 if not thorough else 4):
         jobs.append((scenario_lock_held, (rng.getrandbits(30), shape(k + i))))
-    firsts = LOCK_CMDS if thorough else [LOCK_CMDS[rng.randrange(len(LOCK_CMDS))], 'sync']
+    firsts = [c for c in LOCK_CMDS if c != 'pool'] if thorough else [[c for c in LOCK_CMDS if c != 'pool'][rng.randrange(len(LOCK_CMDS) - 1)], 'sync']
     for f in firsts:
         offs = [0.0, 0.15, 0.4, 0.8] if not thorough else [0.0, 0.05, 0.1, 0.2, 0.35, 0.5, 0.8, 1.2]
         jobs.append((scenario_lock_live, (rng.getrandbits(30), shape(k), f, offs)))
